@@ -92,6 +92,29 @@ def scenarios() -> Dict[str, Tuple[Scenario, Dict[Any, Any]]]:
         ("l", "call_function", E(F + "mse_loss"), ("%m", "%y"), {}),
         ("output", "output", "output", (("%l",),), {}),
     ], {my_gelu: "U:gelu", E(F + "gelu"): user_fn})
+    S["two towers joined by a loss (each with its own residual)"] = ([
+        ("a", "placeholder", "a", (), {}), ("b", "placeholder", "b", (), {}),
+        ("wa", "get_attr", "wa", (), {}), ("wb", "get_attr", "wb", (), {}), ("wc", "get_attr", "wc", (), {}),
+        ("fa", "call_function", E(F + "linear"), ("%a", "%wa", None), {}),
+        ("ga", "call_function", E(F + "gelu"), ("%fa",), {}),
+        ("ra", "call_function", ADD, ("%a", "%ga"), {}),  # residual in tower A (not the last residual of the graph)
+        ("fb", "call_function", E(F + "linear"), ("%b", "%wb", None), {}),
+        ("rb", "call_function", ADD, ("%fb", "%b"), {}),  # residual in tower B
+        ("hb", "call_function", E(F + "linear"), ("%rb", "%wc", None), {}),  # after the last residual of its tower
+        ("l", "call_function", E(F + "mse_loss"), ("%ra", "%hb"), {}),
+        ("output", "output", "output", (("%l",),), {}),
+    ], {})
+    S["branch operands passed by keyword and inside a list"] = ([
+        ("x", "placeholder", "x", (), {}), ("w", "get_attr", "w", (), {}),
+        ("q", "call_function", E(F + "linear"), ("%x", "%w", None), {}),
+        ("at", "call_function", E(F + "scaled_dot_product_attention"), (), {"query": "%q", "key": "%q", "value": "%q"}),  # tensors by keyword
+        ("r1", "call_function", ADD, ("%x", "%at"), {}),
+        ("h", "call_function", E(F + "linear"), ("%r1", "%w", None), {}),
+        ("c", "call_function", E("torch.cat"), (["%h", "%h"],), {"dim": -1}),  # tensors inside a list argument
+        ("o", "call_function", E(F + "linear"), ("%c", "%w"), {"bias": None}),
+        ("r2", "call_function", ADD, ("%r1", "%o"), {}),
+        ("output", "output", "output", (("%r2",),), {}),
+    ], {})
     return S
 
 
@@ -379,7 +402,7 @@ def check(report: Report, repo: Repo) -> None:
         d = first_diff(got, exp) if got is not None else "no output"
         report.add("R1-rewrite", cons, got == exp, f"[{sname}] rewritten graph must equal the recipe; first difference: {d}", str(got)[:500], str(exp)[:500])
         report.add("R1-lint", cons, g.linted >= 1, f"[{sname}] graph.lint() runs on the result", g.linted, ">=1", nontrivial=False)
-    report.floor("scenario graphs executed", n_sc, 4)
+    report.floor("scenario graphs executed", n_sc, 6)
 
     # ---- R3 unit_scale(): copy, reorder, re-initialise (run for real on an abstract module)
     it3 = Interp(repo)
